@@ -8,13 +8,15 @@ from .kcallee import K_qr, K_svd
 def _site_support(name, qd, q0, q1):
     return {name: [[(qd, 0), (q0, 1), (-q1, 2)]]}
 
-def _sparse(t, qs):
-    def f(env, res, rules, st):
-        from ..contract import _wrap
-        ten = eval(t, dict(res=res, **{k: v for k, v in env.items() if not k.startswith('#')}))
-        qq = eval(qs, dict(res=res, **{k: v for k, v in env.items() if not k.startswith('#')}))
-        return support_holds(ten, list(qq), st.env.get('#support', {}))
-    return f
+class _sparse:
+    """block-sparsity clause qsparse(t, qs): symbolic = support VC (z3), numeric = exact-zero test"""
+    def __init__(self, t, qs):
+        self.t = t; self.qs = qs
+    def __call__(self, env, res, rules, st):
+        ns = dict(res=res, **{k: v for k, v in env.items() if not k.startswith('#')})
+        return support_holds(eval(self.t, ns), list(eval(self.qs, ns)), st.env.get('#support', {}))
+    def numeric(self, ns):
+        return ns['qsparse'](eval(self.t, ns), eval(self.qs, ns))
 
 def _args_left():
     qd = qv('qd', 'd'); q0 = qv('qD0', 'D0'); q1 = qv('qD1', 'D1')
@@ -26,7 +28,7 @@ TContract(fn='mps.local_orthonormalize_left_qr', args=_args_left, uses={'qr': K_
               'pair_preserved': "einsum('sac,tcb->stab', res[0], res[1]) == einsum('saj,tjb->stab', A, Anext)",
               'left_isometry': "einsum('sac*,sad->cd', res[0], res[0]) == identity(shape(res[0])[2])",
               'shapes': "shape(res[0])[:2] == shape(A)[:2] and shape(res[0])[2] == shape(res[1])[1] and "
-                        "shape(res[1])[0] == shape(Anext)[0] and shape(res[1])[2] == shape(Anext)[2] and len(res[2].parts) == 1 "
+                        "shape(res[1])[0] == shape(Anext)[0] and shape(res[1])[2] == shape(Anext)[2]"
                         "and res[2].dim == shape(res[0])[2]",
               'sparse_A': _sparse('res[0]', '[qd, qD[0], -res[2]]'),
           },
@@ -56,3 +58,70 @@ TContract(fn='mps.merge_mps_tensor_pair',
           ensures={'value': "res == reshape(einsum('sac,tcb->stab', A0, A1), dim('d0','d1'), dim('D0'), dim('D2'))"},
           canaries={'value': "res == reshape(einsum('sac,tcb->tsab', A0, A1), dim('d1','d0'), dim('D0'), dim('D2'))"},
           props=('C03', 'C01', 'C08', 'C09', 'C10'))
+
+
+# ---- SVD-based local steps and the two-site split (callee contract K_svd) -------------------------
+
+def _svd_E(env, st):
+    """the discarded part E of the last split_matrix_svd call as a tensor over (rows, cols)"""
+    from .. import tensor as T
+    rec = st.env['#svd_calls'][-1]
+    rows = tuple(T.Idx(T.tok_dim(i)) for i in rec['rows'] if T.tok_dim(i) != 1)
+    cols = tuple(T.Idx(T.tok_dim(i)) for i in rec['cols'] if T.tok_dim(i) != 1)
+    return T.SymTensor([rows, cols], [T.Term(T.ONE, [], [(rec['E'], False, (rows, cols))])])
+
+def _with_E(clause):
+    def f(env, res, rules, st):
+        from ..contract import sym_namespace, _wrap
+        ns = sym_namespace(env, res, rules)
+        ns['E'] = _wrap(_svd_E(env, st))
+        return eval(clause, ns)
+    return f
+
+for _exact in (True, False):
+    _tag = 'tol0' if _exact else 'anytol'
+    TContract(fn='mps.local_orthonormalize_left_svd',
+              args=lambda: dict(_args_left(), tol='tol'), uses={'split_matrix_svd': K_svd(_exact)},
+              ensures={
+                  f'pair_preserved[{_tag}]': ("einsum('sac,tcb->stab', res[0], res[1]) == einsum('saj,tjb->stab', A, Anext)" if _exact else
+                      _with_E("einsum('sac,tcb->stab', res[0], res[1]) == add(einsum('saj,tjb->stab', A, Anext), scale(einsum('saj,tjb->stab', reshape(E, dim('d'), dim('D0'), dim('D1')), Anext), -1))")),
+                  f'left_isometry[{_tag}]': "einsum('sac*,sad->cd', res[0], res[0]) == identity(shape(res[0])[2])",
+                  f'shapes[{_tag}]': "shape(res[0])[:2] == shape(A)[:2] and shape(res[0])[2] == shape(res[1])[1] and "
+                                     "shape(res[1])[0] == shape(Anext)[0] and shape(res[1])[2] == shape(Anext)[2] and res[2].dim == shape(res[0])[2]",
+                  f'sparse_A[{_tag}]': _sparse('res[0]', '[qd, qD[0], -res[2]]'),
+              },
+              canaries={f'left_isometry[{_tag}]': "einsum('sac*,sbc->ab', res[0], res[0]) == identity(shape(res[0])[1])"},
+              props=('C13', 'C02', 'C12'))
+    TContract(fn='mps.local_orthonormalize_right_svd',
+              args=lambda: dict(_args_right(), tol='tol'), uses={'split_matrix_svd': K_svd(_exact)},
+              ensures={
+                  f'pair_preserved[{_tag}]': ("einsum('tac,scb->tsab', res[1], res[0]) == einsum('taj,sjb->tsab', Aprev, A)" if _exact else
+                      _with_E("einsum('tac,scb->tsab', res[1], res[0]) == add(einsum('taj,sjb->tsab', Aprev, A), scale(einsum('taj,jsb->tsab', Aprev, reshape(E, dim('D0'), dim('d'), dim('D1'))), -1))")),
+                  f'right_isometry[{_tag}]': "einsum('scb*,sdb->cd', res[0], res[0]) == identity(shape(res[0])[1])",
+                  f'shapes[{_tag}]': "shape(res[0])[0] == shape(A)[0] and shape(res[0])[2] == shape(A)[2] and shape(res[0])[1] == shape(res[1])[2] and "
+                                     "shape(res[1])[:2] == shape(Aprev)[:2] and res[2].dim == shape(res[0])[1]",
+                  f'sparse_A[{_tag}]': _sparse('res[0]', '[qd, res[2], -qD[1]]'),
+              },
+              canaries={f'right_isometry[{_tag}]': "einsum('sac*,sad->cd', res[0], res[0]) == identity(shape(res[0])[2])"},
+              props=('C13', 'C02', 'C12'))
+
+def _args_split(distr):
+    def f():
+        qd0 = qv('qd0', 'd0'); qd1 = qv('qd1', 'd1'); q0 = qv('qD0', 'D0'); q2 = qv('qD2', 'D2')
+        from ..tensor import inp as _inp, reshape as _reshape, Dim
+        A = _reshape(_inp('A', ('d0', 'd1', 'D0', 'D2')), (Dim(('d0', 'd1')), Dim(('D0',)), Dim(('D2',))))
+        return {'A': A, 'qd0': qd0, 'qd1': qd1, 'qD': (q0, q2), 'svd_distr': distr, 'tol': 0,
+                '#support': {'A': [[(qd0, 0), (qd1, 1), (q0, 2), (-q2, 3)]]}}
+    return f
+
+for _distr in ('left', 'right', 'sqrt'):
+    TContract(fn='mps.split_mps_tensor', args=_args_split(_distr), uses={'split_matrix_svd': K_svd(True)},
+              ensures={
+                  f'merge_undoes_split[{_distr},tol0]': "reshape(einsum('sac,tcb->stab', res[0], res[1]), dim('d0','d1'), dim('D0'), dim('D2')) == A",
+                  f'shapes[{_distr}]': "shape(res[0])[0] == dim('d0') and shape(res[0])[1] == dim('D0') and shape(res[1])[0] == dim('d1') and "
+                                       "shape(res[1])[2] == dim('D2') and shape(res[0])[2] == shape(res[1])[1] and res[2].dim == shape(res[0])[2]",
+                  f'sparse_A0[{_distr}]': _sparse('res[0]', '[qd0, qD[0], -res[2]]'),
+                  f'sparse_A1[{_distr}]': _sparse('res[1]', '[qd1, res[2], -qD[1]]'),
+              },
+              canaries={f'merge_undoes_split[{_distr},tol0]': "reshape(einsum('sac,tcb->tsab', res[0], res[1]), dim('d1','d0'), dim('D0'), dim('D2')) == A"},
+              props=('C03', 'C12', 'C02', 'C08', 'C10'))
